@@ -89,7 +89,7 @@ def gen_slot(kinds=('g',)):
 # ------------------------------------------------------------------ random strings
 POOL_ASCII = list("abcXYZ019") + list("-._~!$'()*,;:") + list(" \"<>%@?#`{}/+&=|\\^[]") + ['\t', '\x01', '\x7f']
 POOL_UNI = ['é', 'Æ', 'ß', 'ǅ', 'İ', '日', '𝄞', '́', 'K', 'ſ', 'Σ', 'ΑΣ', 'ς']
-ODD = ['@scope/name', '@a/b', 'a/b', '/a', 'a/', '@', '@x', 'x@y', 'İ_b', 'İ', 'École_Δ', 'Ångström.Units', '...', '....', '.a', 'a.', '..a', '. .', '%', '+', 'a b', '.', '..', '-', '_', '%2F', 'a%zz', '%%', '\\', 'A', 'é', ':', ',', 'a:b,c:d']
+ODD = ['g:a', 'org.apache.commons:io', ':a', 'g:', 'a:b:c', 'v2', 'x ', ' x', 'x\t', '@scope/name', '@a/b', 'a/b', '/a', 'a/', '@', '@x', 'x@y', 'İ_b', 'İ', 'École_Δ', 'Ångström.Units', '...', '....', '.a', 'a.', '..a', '. .', '%', '+', 'a b', '.', '..', '-', '_', '%2F', 'a%zz', '%%', '\\', 'A', 'é', ':', ',', 'a:b,c:d']
 def rstr(rng, lo=1, hi=6, exclude=''):
     if lo >= 1 and rng.random() < 0.12:
         o = rng.choice(ODD)
@@ -416,7 +416,7 @@ def gen_names(rng, tier):
             yield f'P t {hx("pkg:" + ty + "/" + e)}'
             yield f'B t {SEVEN.index(ty)} {hx(n)} S:{hx("g")}'
     alpha = ['a', 'A', '1', '-', '_', '.', 'Æ', 'ǅ'] + [c for c in EXTRA['chars'] if c not in 'aA1-_.'][:2]
-    for n in ['ΟΔΟΣ', 'ΑΣ', 'aΣ', 'Σ', 'ΑΣ-Σ', 'ΑΣa', 'AÆ', 'MyÆsir.Core', 'aΣ.bΣ', 'İ', 'ẞ', 'ſK']: yield from cases(n)
+    for n in ['ΟΔΟΣ', 'ΑΣ', 'aΣ', 'Σ', 'ΑΣ-Σ', 'ΑΣa', 'AÆ', 'MyÆsir.Core', 'aΣ.bΣ', 'İ', 'ẞ', 'ſK', 'Éℂ', 'ℂÉ', 'Aℂ', 'ℂ', 'ϒ', '𝐀B', 'Ωϒ', 'Д𝐀_x', 'ℂ-_.ℂ']: yield from cases(n)
     for k in range(1, 5 if tier == 'quick' else 6):
         for w in itertools.product(alpha, repeat=k):
             yield from cases(''.join(w))
@@ -449,7 +449,7 @@ def gen_types(kinds=('g', 's', 'b', 'o')):
             yield f'B {k} {hx(ty)} {hx("")} -'
 
 # ------------------------------------------------------------------ G-build
-VALS = ['', 'x', 'A/b', '/', 'a//b/', '%41', '..', 'a/../b', 'é', 'a@b?c#d', ' ', 'a&b=c+d', '"<>`{}', 'a:b']
+VALS = ['', 'x', 'A/b', '/', 'a//b/', 'a/.../b', '...', '..../x', 'a///b', 'a/////b//c', '1.0/', 'x ', '\u3000x\u3000', 'vv1', 'Vv1', '%41', '..', 'a/../b', 'é', 'a@b?c#d', ' ', 'a&b=c+d', '"<>`{}', 'a:b']
 QKEYS = ['a', 'A', 'b', 'a.b', 'a_b', 'ab', '!', '', 'checksum', 'Checksum', 'repository_url', 'é']
 QVALS = ['', 'x', 'a&b=c', 'sha1:00', 'SHA1:ZZ', 'B:00,a:FF', 'sha1:0', 'a:,b:', 'v w']
 CSOPS = ['-', f'i.{hx("sha1")}.00ff', f'i.{hx("SHA1")}.-', f'i.{hx("md5")}.0a+i.{hx("MD5")}.0b', f'w.{hx("sha1")}.{hx("zz")}',
@@ -469,6 +469,7 @@ def builder_ops(kind):
     ops += [f'C:{c}' for c in CSOPS]
     ops += [f'R:{hx(v)}' for v in ['', 'https://e.x/?a=b&c#d']]
     ops += [f'T:{t}' for t in tyv]
+    ops += [f'W:0:{hx("t0")}', f'W:1:{hx("t1")}', f'W:0:-', 'w:0', 'w:1', f'Q:{hx("buildtag")}:{hx("q")}', f'Q:{hx("x-y.z_1")}:{hx("q")}']
     return ops, tyv
 def gen_build(rng, nrand, exhaustive_len=1, kinds=('g', 't')):
     for kind in kinds:
@@ -478,6 +479,13 @@ def gen_build(rng, nrand, exhaustive_len=1, kinds=('g', 't')):
             for seq in itertools.product(ops, repeat=n):
                 t = ty0 if kind != 't' else str((len(seq) * 3 + n) % 7)
                 yield f'B {kind} {t} {hx("n")} {",".join(seq) or "-"}'
+        t1 = tyv[0]
+        for seq in [f'Q:{hx("arch")}:{hx("x")},W:0:{hx("acme")}', f'W:0:{hx("acme")},Q:{hx("buildtag")}:{hx("o")}', f'D:{hx("zeta")}:{hx("1")},D:{hx("alpha")}:{hx("2")},W:0:{hx("v")}',
+                    f'W:1:{hx("v")},Q:{hx("X-Y.Z_1")}:{hx("w")}', f'W:0:{hx("v")},w:0', f'W:2:{hx("v")}', f'Q:{hx("a")}:{hx("1")},W:2:{hx("v")}', 'w:2',
+                    f'Q:{hx("arch")}:{hx("1")},Q:{hx("distro")}:{hx("2")},Q:{hx("os")}:{hx("3")},Q:{hx("vcs_url")}:{hx("4")},q:{hx("arch")}',
+                    f'Q:{hx("a")}:{hx("1")},Q:{hx("b")}:{hx("2")},Q:{hx("c")}:{hx("3")},Q:{hx("d")}:{hx("4")},Q:{hx("e")}:{hx("5")},E:{hx("b")}',
+                    f'Q:{hx("arch")}:{hx("1")},R:{hx("u")},Q:{hx("tag")}:{hx("3")},Q:{hx("variant")}:{hx("4")},r,Q:{hx("arch")}:-']:
+            yield f'B {kind} {t1} {hx("n")} {seq}'
         for t in tyv:
             for nm in ['', 'n', 'A_.b', 'Æ']:
                 yield f'B {kind} {t} {hx(nm)} S:{hx("g")}'
@@ -493,7 +501,7 @@ def gen_build(rng, nrand, exhaustive_len=1, kinds=('g', 't')):
         yield f'B {kind} {rng.choice(tyv)} {hx(rng.choice(["n", "", "N-_.m", rstr(rng, 0, 4)]))} {",".join(seq)}'
 
 # ------------------------------------------------------------------ G-qops
-QK = ['a', 'A', 'b', 'B', 'a.b', 'a_b', 'ab', '', '!', 'repository_url', 'checksum', 'é', 'K', 'buildtag', 'BuildTag', 'x-y.z_1', 'vcs_url', 'Type', 'download_url', 'file_name', 'platform', 'classifier']
+QK = ['k', 'key', '\u212a', '\u212aey', 'a', 'A', 'b', 'B', 'a.b', 'a_b', 'ab', '', '!', 'repository_url', 'checksum', 'é', 'K', 'buildtag', 'BuildTag', 'x-y.z_1', 'vcs_url', 'Type', 'download_url', 'file_name', 'platform', 'classifier']
 QV = ['', 'x', 'y']
 def qop_universe():
     ops = ['C', 't', 'l', 'tg', 'tc', 'td', 'tG', f'M:{hx("s")}', f'I:{hx("s")}', f'J:{hx("z")}', f'tr:{hx("u")}', f'tr:-']
@@ -541,7 +549,7 @@ def gen_qops(rng, nrand):
         yield 'F ' + (','.join(ps) or '-')
 
 # ------------------------------------------------------------------ G-cs
-CALGS = ['éSHA', 'ésha', 'éA', 'éa', 'SHÄ', 'shä', 'GOST-Ё', 'gost-ё', 'sha1', 'SHA1', 'Sha1', 'md5', 'MD5', 'ǅ', 'ǆ', 'Ǆ', 'a:b', '', 'é', 'É', 'b2', 'K', 'a b', 'ΑΣ', 'ασ', 'ας', 'sha512', 'sha512-256', 'sha512.1', 'urn:sha256']
+CALGS = ['Éℂ', 'Ωϒ', 'Д𝐀', 'ℂ', 'aℂ', 'İ', 'éSHA', 'ésha', 'éA', 'éa', 'SHÄ', 'shä', 'GOST-Ё', 'gost-ё', 'sha1', 'SHA1', 'Sha1', 'md5', 'MD5', 'ǅ', 'ǆ', 'Ǆ', 'a:b', '', 'é', 'É', 'b2', 'K', 'a b', 'ΑΣ', 'ασ', 'ας', 'sha512', 'sha512-256', 'sha512.1', 'urn:sha256']
 def gen_cs(rng, n):
     for c in CSOPS: yield f'C {c}'
     for _ in range(n):
@@ -600,11 +608,11 @@ def gen_comb_purl(rng, n):
         if t['ty'] not in SEVEN: t['ty'] = rng.choice(SEVEN)
         yield f'M {hx(spelling_of(rng, t))}'
 def gen_comb(rng, n):
-    parts = ['', 'a', 'B', 'a/b', 'a/b/c', '/', 'a/', '/a', ':', 'a:b', 'a:b:c', 'g:a/b', 'a/b:c', ':a', 'a:', 'é/ü:x', '@s/p', 'a//b', 'A_.b', 'Æ/ǅ']
+    parts = ['', 'a', 'B', 'a/b', 'a/b/c', '/', 'a/', '/a', ':', 'a:b', 'a:b:c', 'g:a/b', 'a/b:c', ':a', 'a:', 'é/ü:x', '@s/p', 'a//b', 'A_.b', 'Æ/ǅ', 'a/b/v2', 'mod/v2', 'a/v10', 'v2', 'a/V2', 'a/v', 'a/v2x', 'x/y/z/v3', 'angular/cli', 'a.b/c.d:e.f']
     for i in range(7):
         for s in parts: yield f'N {i} {hx(s)}'
     for _ in range(n):
-        s = ''.join(rng.choice(['/', ':', 'a', 'B', '.', '_', '-', 'é', '@', ' ', '%2F']) for _ in range(rng.randint(0, 7)))
+        s = ''.join(rng.choice(['/', ':', 'a', 'B', '.', '_', '-', 'é', '@', ' ', '%2F', 'v2', 'v'] + EXTRA['chars'][:4]) for _ in range(rng.randint(0, 7)))
         yield f'N {rng.randrange(7)} {hx(s)}'
 
 # ------------------------------------------------------------------ G-pair
@@ -619,6 +627,16 @@ def gen_pair(rng, n, kinds=('g', 't', 's', 'b', 'o')):
             for k2 in ('bo' if k in 'bo' else k):
                 yield f'K B {k} {hx(t1)} {hx("n")} - ~ B {k2} {hx(t2)} {hx("n")} -'
                 yield f'K B {k} {hx(t1)} {hx("n")} V:{hx("1")} ~ B {k2} {hx(t2)} {hx("n")} V:{hx("1")}'
+    for k, ty in (('g', hx('t')), ('s', hx('t')), ('b', hx('t')), ('o', hx('t')), ('t', '4'), ('t', '0')):
+        for ops1, ops2 in [(f'Q:{hx("arch")}:-', '-'), (f'Q:{hx("a")}:{hx("1")},Q:{hx("a")}:-', '-'), (f'Q:{hx("a")}:{hx("1")},Q:{hx("b")}:-', f'Q:{hx("a")}:{hx("1")}'),
+                           (f'R:-', '-'), (f'Q:{hx("a")}:{hx("1")}', f'Q:{hx("a")}:{hx("1")},Q:{hx("b")}:{hx("2")}'), ('-', f'Q:{hx("a")}:{hx("1")}'),
+                           (f'Q:{hx("a")}:{hx("1")},U:{hx("zzz")}', f'Q:{hx("a")}:{hx("1")},Q:{hx("b")}:{hx("2")},U:{hx("aaa")}'),
+                           (f'D:{hx("arch")}:-', '-'), (f'D:{hx("a")}:{hx("1")},D:{hx("b")}:-', f'D:{hx("a")}:{hx("1")}')]:
+            yield f'K B {k} {ty} {hx("n")} {ops1} ~ B {k} {ty} {hx("n")} {ops2}'
+    for a, b in [('pkg:t/n@1.0', 'pkg:t/n@1.0?a=1'), ('pkg:t/n?a=1#zzz', 'pkg:t/n?a=1&b=2#aaa'), ('pkg:t/n?arch=i386', 'pkg:t/n?arch=i386&distro=j'), ('pkg:npm/n?a=1', 'pkg:npm/n?a=1&b=2')]:
+        for k in ('g', 's', 't'):
+            if k == 't' and ':t/' in a: continue
+            yield f'K P {k} {hx(a)} ~ P {k} {hx(b)}'
     for x in ['/', '//', '///', 'a/', '/a', 'a//b', '.', '..', './a', 'a/..']:
         for y in ['', 'a', 'a/b', '/']:
             for f in 'SU':
